@@ -99,7 +99,7 @@ func progOf(kind string, l, src int, noop bool) []cinstr {
 			{k: iLock, l: l}, hk("join.locked"), acc, {k: iUnlock, l: l}}
 	case "setid":
 		return []cinstr{hk("op.start"), {k: iLock, l: l}, acc, {k: iUnlock, l: l}}
-	case "iter":
+	case "iter", "iterb":
 		return []cinstr{hk("op.start"), {k: iRLock, l: l}, hk("iterator.locked"), acc, {k: iRUnlock, l: l}}
 	case "mh":
 		return []cinstr{hk("op.start"), {k: iRLock, l: l}, acc, {k: iRUnlock, l: l}, {k: iRLock, l: l}, acc, {k: iRUnlock, l: l}}
@@ -149,6 +149,7 @@ type cworld struct {
 	concCids    map[int][]cid.Cid
 	concHasCids map[int]bool
 	concNote    map[int]string
+	concBound   map[int]iface.IPFSLogEntry
 	concPreempt int
 }
 
@@ -379,6 +380,9 @@ func (c *cctl) runOp(o *cop) {
 		if err == nil {
 			w.concMu.Lock()
 			w.concEntries[o.tid] = e
+			if o.prelude {
+				w.concBound[o.log] = e // an upper bound for the bounded iterations of this log
+			}
 			w.concMu.Unlock()
 		}
 	case "join", "joinr":
@@ -424,6 +428,37 @@ func (c *cctl) runOp(o *cop) {
 			}
 		}
 		w.setObs(o, es, nil)
+	case "iterb":
+		// iteration below an inclusive upper bound (an entry appended in the prelude): the bound is looked up
+		// while the read lock is held
+		w.concMu.Lock()
+		b := w.concBound[o.log]
+		w.concMu.Unlock()
+		opts := &ipfslog.IteratorOptions{}
+		if b != nil {
+			opts.LTE = []cid.Cid{b.GetHash()}
+			if o.arg == 1 {
+				opts.LTE, opts.LT = nil, []cid.Cid{b.GetHash()}
+			}
+		}
+		ch := make(chan iface.IPFSLogEntry, 4096)
+		err := l.Iterator(opts, ch)
+		var es []iface.IPFSLogEntry
+		if err == nil {
+			for e := range ch {
+				es = append(es, e)
+			}
+		}
+		var bs []iface.IPFSLogEntry
+		if b != nil {
+			bs = append(bs, b)
+		}
+		w.setObs(o, es, bs)
+		if err != nil {
+			w.concMu.Lock()
+			w.concNote[o.tid] = "err"
+			w.concMu.Unlock()
+		}
 	case "heads":
 		w.setObs(o, l.Heads().Slice(), nil)
 	case "rawheads":
@@ -750,7 +785,7 @@ func (w *cworld) concCase(h int, kind string, thorough bool, enum bool, script [
 	case "e-aar":
 		add("append", 0, -1, 1, false)
 		add("append", 0, -1, 2, false)
-		add("iter", 0, -1, 0, false)
+		add("iterb", 0, -1, 0, false)
 	case "e-ja":
 		add("join", 0, 1, -1, false)
 		add("append", 1, -1, 1, false)
@@ -769,6 +804,9 @@ func (w *cworld) concCase(h int, kind string, thorough bool, enum bool, script [
 		}
 		extraReaders(2 + r.Intn(3))
 		add("iter", 0, -1, 0, false)
+		if r.Intn(2) == 0 {
+			add("iterb", 0, -1, r.Intn(2), false)
+		}
 		if r.Intn(3) == 0 {
 			o := add("setid", 0, -1, 0, false)
 			o.writer = "wx"
@@ -792,6 +830,9 @@ func (w *cworld) concCase(h int, kind string, thorough bool, enum bool, script [
 		}
 		if r.Intn(2) == 0 {
 			add("iter", 1, -1, 0, false)
+		}
+		if r.Intn(2) == 0 {
+			add("iterb", r.Intn(2), -1, r.Intn(2), false)
 		}
 		extraReaders(r.Intn(3))
 	case "cross":
@@ -895,6 +936,7 @@ func (w *cworld) concCase(h int, kind string, thorough bool, enum bool, script [
 	w.concCids = map[int][]cid.Cid{}
 	w.concHasCids = map[int]bool{}
 	w.concNote = map[int]string{}
+	w.concBound = map[int]iface.IPFSLogEntry{}
 	w.concPreempt = 0
 	c.run()
 
